@@ -13,7 +13,7 @@ import vyxal.main as M
 
 RULE = ("every key of the element table (except the documented whole-stack operations † W ^ Ȯ „ ‟ ¨ẇ and the dead entry x) with 6 (quick) / 30 "
         "(thorough) generated argument tuples of its arity over integers, rationals, strings, nested lists, lazy lists and functions, and every "
-        "modifier applied to 40 (quick) / every (thorough) element, each on top of a three-object sentinel prefix: afterwards the prefix must be "
+        "modifier applied to 40 (quick) / every (thorough) element, each on top of a three-object sentinel prefix (and the parallel-apply modifiers ₌ ₍ on every pair of 21 one-result elements of arity 1-3 against their compositional definition: B on the live stack, A on a copy): afterwards the prefix must be "
         "the same objects (identity) with the same contents, also when the element raises. The analysis side is regenerated: the Lean theorem "
         "re-checks every template of the current table. Non-trivial = distinct (key, argument tuple).")
 TRUSTED = ["T7 helpers that are not handed `stack` do not reach it (a helper could go through ctx.stacks[-1]); validated by this sentinel run"]
@@ -101,7 +101,50 @@ def o_whole(inp):
     return got == [snapshot(x) for x in want], f"{key} on {inp['stack']}: stack afterwards {got}, documented result {[snapshot(x) for x in want]}"
 
 
-ORACLES = {"whole_stack": o_whole, "prefix_untouched": o_prefix, "function_value_applied": o_callsite}
+PAR_MON = ["N", "d", "›", "‹", "L", "Ṙ", "¬", "U", "½"]
+PAR_DY = ["+", "-", "*", "J", "\"", "=", "<", "ẋ", "%"]
+PAR_TRI = ["Ȧ", "Ŀ", "V"]
+PAR_VALUES = [0, 1, 2, 3, -1, 5, ["R", 1, 2], ["R", -3, 2], "ab", "", "a b", ["l", [1, 2, 3]], ["l", []], ["l", [["l", [1, 2]], ["l", [3]]]], ["l", ["a", "bc"]]]
+
+
+def _exec_on(code, values):
+    ctx = Context(); stack = list(values); ctx.stacks.append(stack); ctx.inputs[0][0] = [3, 4]
+    ns = dict(vars(M)); ns["stack"] = stack; ns["ctx"] = ctx
+    with alarm(2), contextlib.redirect_stdout(io.StringIO()):
+        exec(code, ns)
+    return ns["stack"]
+
+
+def _snap(v):
+    if isinstance(v, LazyList):
+        v = list(v)
+    if isinstance(v, list):
+        return ["l", [_snap(x) for x in v]]
+    return repr(v)
+
+
+def o_parallel(inp):
+    """the parallel-apply modifiers, compositionally: `₌AB` gives A a *copy* of the stack and B the live one, so the result must be
+    the stack B alone leaves, with A's result (computed on its own copy) pushed under B's — `₍AB` pairs the two. Nothing below B's
+    operands may move, and every operand of B must go: the entries between the two arities are where a mix-up of the two stacks shows."""
+    m, a, b, args = inp["mod"], inp["A"], inp["B"], inp["args"]
+    try:
+        sa = _exec_on(elements[a][0], [decode(x, None) for x in args])
+        sb = _exec_on(elements[b][0], [decode(x, None) for x in args])
+        if len(sa) != len(args) - elements[a][1] + 1 or len(sb) != len(args) - elements[b][1] + 1:
+            return True, "skipped: not a one-result element"
+        ra, rb, left = _snap(sa[-1]), _snap(sb[-1]), [_snap(x) for x in sb[:-1]]
+    except BaseException as ex:  # noqa: BLE001
+        return True, "skipped: an element alone raises " + type(ex).__name__
+    want = left + ([ra, rb] if m == "₌" else [["l", [ra, rb]]])
+    try:
+        got = [_snap(x) for x in _exec_on(transpile(m + a + b), [decode(x, None) for x in args])]
+    except BaseException as ex:  # noqa: BLE001
+        return False, f"{m}{a}{b} on {args} raised {type(ex).__name__}: {ex} although {a} and {b} alone return"
+    return got == want, f"{m}{a}{b} on {args}: stack afterwards {got}; {b} alone leaves {left + [rb]}, {a} on a copy gives {ra}: expected {want}"
+
+
+ORACLES = {"whole_stack": o_whole, "prefix_untouched": o_prefix, "function_value_applied": o_callsite, "parallel_apply": o_parallel}
 
 VALUES = [0, 1, 2, 3, -1, 5, ["R", 1, 2], ["R", -3, 2], "ab", "", "a b", ["l", [1, 2, 3]], ["l", []], ["l", [["l", [1, 2]], ["l", [3]]]], ["l", ["a", "bc"]],
           ["L", [1, 2, 3]], ["L", []], ["F", "d"], ["F", "+"], ["l", [["F", "d"]]], ["l", [7, ["F", "+"]]], ["L", [["F", "+"], 2]]]
@@ -158,6 +201,16 @@ def run(ctx, widen=False):
     ctx.bump("whole-stack operation cases", len(wcases))
     ctx.check_many("whole_stack", wcases, procs=1)
     ctx.check_many("prefix_untouched", cases)
+    # the parallel-apply modifiers on every pair of well-behaved one-result elements of arity 1..3 (441 pairs, both modifiers)
+    els = PAR_MON + PAR_DY + PAR_TRI
+    pcases = []
+    for m in ("₌", "₍"):
+        for a in els:
+            for b in els:
+                for _ in range(3 if thorough else 1):
+                    pcases.append({"mod": m, "A": a, "B": b, "args": [PAR_VALUES[rng.randrange(len(PAR_VALUES))] for _ in range(5)]})
+    ctx.bump("parallel-apply cases", len(pcases))
+    ctx.check_many("parallel_apply", pcases)
     # the `pop` helper itself against its Lean model (object of pop_frame / pop_retain / pop_short): every count 0..5 on every
     # stack of length 0..5, the four flag combinations; the inputs are 100, 101, … so a read is visible in the result
     from vyxal.helpers import pop as real_pop
